@@ -94,7 +94,8 @@ def _run_task(task, repo, use_cvc5=True, stop_on_refuted=False):
     for q in task.functions():
         r = repo.func(q)
         if r is None:
-            res.errors.append(f"function {q} not found in /repo")
+            # (renamed, moved or removed: the contract has nothing to be checked against - undecided, the run-time layer decides)
+            res.unsupported.append(f"function {q} is not in this tree (renamed, moved or removed): its contract cannot be checked")
             res.wall_s = time.time() - t0
             return res
         res.ast_sha[q] = ast_sha(r[0])
